@@ -309,6 +309,11 @@ class TradingEnv(gymnasium.Env):
                 "The current episode has ended. To start a new episode use "
                 "TradingEnv.reset()."
             )
+        if self._now is not None:
+            # AbstractContract.now is shared by all environments living in the
+            # process: restore the clock of this environment before resolving
+            # time-dependent contracts (e.g. the lead contract of FutureChain).
+            AbstractContract.now = self._now
         self._queue_actions.appendleft(action)
         action = self._queue_actions.pop()
         self._process_latent_events()
